@@ -446,6 +446,53 @@ def remaining_counters(fn, ends, ptr_canon, before_id=None):
     return out
 
 
+def not_past_end(fn, use, ends, ptr_canon):
+    """`static_cast<size_t>(end - ptr)` only counts the remaining bytes while ptr <= end; for a pointer behind the end the difference wraps
+    to a huge value and every `>=` bound on it passes.  True when every path from the function's entry to `use` has established
+    `end >= ptr` at some point (`end < ptr` excluded, `ptr <= end` tested); later forward moves of the pointer are each bounded by a
+    remaining-bytes fact of their own (C03-R2c), which preserves it.  Comparisons of the signed difference itself need nothing."""
+    cfg = fn.cfg
+    ub = cfg.block_for(use)
+    if ub is None:
+        return False
+
+    def establishes(a):
+        if a[0] != "cmp":
+            return False
+        for x, y, op in ((a[4], a[5], a[2]), (a[5], a[4], facts._flip_op(a[2]))):
+            xs, ys = strip_all_casts(x), strip_all_casts(y)
+            if xs.get("decl") in ends and canon(ys) == ptr_canon and op in (">=", ">"):
+                return True
+            # a signed test of the difference: (end - ptr) >= k with k >= 0, not converted to unsigned
+            if xs.get("k") == "bin" and xs.get("op") == "-" and strip_all_casts(xs["l"]).get("decl") in ends and canon(strip_all_casts(xs["r"])) == ptr_canon and \
+                    op in (">=", ">") and (const_value(ys) or 0) >= 0 and const_value(ys) is not None:
+                signed = not any(c.get("k") == "cast" and (c.get("t") or {}).get("k") == "int" and not (c.get("t") or {}).get("sg")
+                                 for c in _cast_chain(x))
+                if signed:
+                    return True
+        return False
+    ps = paths.enumerate_paths(fn, None, (lambda b: b == ub) if ub != cfg.entry else None)
+    ps = [p for p in ps if (p.end == "stop" and p.end_block == ub) or (ub in p.blocks)]
+    if not ps:
+        return False
+    for p in ps:
+        atoms = list(p.atoms)
+        if ub in p.blocks:
+            # atoms decided in blocks before the use's block only
+            pass
+        if not any(establishes(a) for a in atoms):
+            return False
+    return True
+
+
+def _cast_chain(x):
+    out = []
+    while isinstance(x, dict) and x.get("k") == "cast":
+        out.append(x)
+        x = x["e"]
+    return out
+
+
 def remaining_fact(fs, ends, ptr_canon, need_const=None, need_canon=None, minus=0, fn=None, at_id=None):
     """A live fact `(end - ptr) [- minus] >= need` (also through a local kept equal to end - ptr)."""
     rc = remaining_counters(fn, ends, ptr_canon, at_id) if fn is not None else set()
@@ -627,6 +674,32 @@ def run(ctx):
                 continue
             check_walker(res, fb, f, cls, hsize, K)
 
+    # ---- R2c (terminators): payload bytes are never read as a C string.  A std::string_view / std::string built from a pointer alone, or
+    # strlen & co. on a pointer that is not a literal, reads until it meets a zero byte — nothing bounds that by the payload; the views the
+    # classes hand out carry their length, and it must stay the one the bounded readers established
+    CSTR = {"strlen", "std::strlen", "strcpy", "std::strcpy", "strcat", "std::strcat", "strcmp", "std::strcmp", "strchr", "std::strchr",
+            "strrchr", "std::strrchr", "strstr", "std::strstr", "rawmemchr", "std::char_traits::length", "atoi", "std::atoi", "strtol", "std::strtol",
+            "strtoul", "std::strtoul", "sscanf", "std::sscanf"}
+    nterm = 0
+    for f in fb.all_functions():
+        if not (f.rec and (f.rec == NS + "Payload" or f.rec in fb.derived_from(NS + "Payload") or f.rec.startswith("TECMP::"))):
+            continue
+        for x in f.nodes():
+            bad = None
+            if x.get("k") == "construct" and (x.get("rec") or "").startswith(("std::basic_string_view", "std::basic_string")):
+                a = [y for y in x.get("args", []) if not (strip_all_casts(y).get("k") == "construct" and (strip_all_casts(y).get("rec") or "").startswith("std::allocator"))]
+                if len(a) == 1 and (strip_all_casts(a[0]).get("t") or {}).get("k") == "ptr" and strip_all_casts(a[0]).get("k") != "lit":
+                    bad = "builds a %s from the pointer `%s` alone: its length is wherever the next zero byte happens to be" % (
+                        (x.get("rec") or "").replace("std::basic_", "std::"), canon(a[0])[:60])
+            elif x.get("k") == "call" and callee_name(x) in CSTR and x.get("args") and strip_all_casts(x["args"][0]).get("k") != "lit":
+                bad = "calls %s on `%s`, which reads until a zero byte" % (callee_name(x), canon(x["args"][0])[:60])
+            if bad:
+                nterm += 1
+                res.bad("C03-R2c", "%s:unterminated@%s" % (f.name.replace(NS, ""), (x.get("loc") or "").split(":", 1)[-1]), x.get("loc"),
+                        "%s %s — a payload without a terminator in the right place (accepted by isValidPayload all the same) is read beyond its bytes" % (f.name, bad))
+    if not nterm:
+        res.ok("C03-R2c", "no-c-string-reads", "", "no payload class reads bytes as a zero-terminated string (views carry their bounded length)")
+
     # ---- R3 dispatch agreement
     cre = fb.fn(NS + "Packet::create")
     typed = {}
@@ -807,6 +880,9 @@ def bounded_reader(fb, g):
         w = (d.get("t") or {}).get("bits", 8) // 8
         if not remaining_fact(fs, ends, pdecl, need_const=w, fn=g):
             return "%s reads %d bytes at its pointer without a live `(end - ptr) >= %d` guard (end = payloadData.data() + payloadData.size())" % (g.name.split("::")[-1], w, w)
+        if ends and not not_past_end(g, d, ends, pdecl):
+            return "%s bounds its read by the unsigned distance `size_t(end - ptr)` without excluding `end < ptr` first: for a position behind the payload " \
+                   "the distance wraps and the guard passes" % g.name.split("::")[-1]
     for r in g.returns():
         e = strip_all_casts(r["e"])
         if const_value(e) == 0:
@@ -881,6 +957,10 @@ def check_walker(res, fb, f, cls, hsize, K):
         key = "%s::%s:%s@%s" % (cls, f.name.split("::")[-1], kind, pc[:30])
         if kind == "deref":
             ok = remaining_fact(fs, ends, pc, need_const=width, fn=f, at_id=x["id"])
+            if ok is not None and ends and strip_all_casts(ptr).get("k") == "ref":
+                res.check(not_past_end(f, x, ends, pc), "C03-R2c", key + ":not-past-end", x.get("loc"), "end >= ptr established before the unsigned distance is used",
+                          "%s::%s bounds this read by `size_t(end - ptr)` without excluding `end < ptr` on every path: behind the payload the distance wraps "
+                          "and the guard passes" % (cls, f.name.split("::")[-1]))
             res.check(ok is not None, "C03-R2c", key, x.get("loc"), "dereference of %d bytes guarded by (end - ptr) >= %d" % (width, width),
                       "%s::%s reads %d bytes at a position taken from the payload (`%s`) without comparing the remaining bytes with the end of the "
                       "payload: a payload accepted by isValidPayload (>= %d bytes) can make it read beyond its buffer" % (cls, f.name.split("::")[-1], width, pc, K))
